@@ -420,8 +420,10 @@ def r3_3(ctx):
   lefts = sorted({a for a, _ in atoms})
   v = _single_def(fn, lefts[0]) if lefts[0].isidentifier() else None
   line = src(v) if v is not None else lefts[0]
+  # the key is a once-bound local or an expression written out in the tests
+  keyexpr = v if v is not None else ast.parse(lefts[0], mode="eval").body
   ctx.check(table_ok and {c for _, c in atoms} == want and len(lefts) == 1
-            and f"{err}.line" in (flow.attrs_in(v) if v is not None else {line}),
+            and f"{err}.line" in flow.attrs_in(keyexpr),
             "Director.filter_error:conjunction", DIR, final.lineno, f"returns {src(final.value)} with line = "
             f"{line}: must be true iff the error's line is in none of {sorted(want)}", {"atoms": atoms, "line": line})
   allowed = {f"{err}.filename != self._filename", f"{err}.line is None"}
@@ -561,6 +563,12 @@ def r3_5(ctx):
   fn = dmod.func("Director._parse_src_tree")
   for target in ("_process_type", "_process_pytype"):
     calls = calls_in(fn, name=f"self.{target}")
+    if not calls_in(dmod.cls("Director"), name=f"self.{target}"):
+      # definite: the handler exists (anchor above) but nothing in the Director calls it
+      dmod.func(f"Director.{target}")
+      ctx.bad(f"Director._parse_src_tree:dispatch:{target}", DIR, fn.lineno,
+              f"Director.{target} is never called: no `{target[9:]}:` comment is processed at all", {"calls": 0})
+      continue
     loops, node = [], calls[0] if len(calls) == 1 else fn
     while node is not fn:
       node = dmod.parent[node]
@@ -701,9 +709,11 @@ def r3_8(ctx):
   if len(dirs) != 1:
     raise AnalysisError("run_program: directors.Director(...) construction not found")
   filt = [c for c in calls_in(run, suffix="set_error_filter")]
-  if len(filt) != 1:
-    raise AnalysisError("run_program: set_error_filter call not found")
-  f = flow.flow(run, gen=lambda u: {"on"} if any(c is filt[0] for c in flow.unconditional_calls(u)) else ())
+  if len(filt) > 1:
+    raise AnalysisError("run_program: more than one set_error_filter call")
+  # no set_error_filter call at all: definitely no filter when the Director is built (R3.2 reports
+  # the missing installation itself)
+  f = flow.flow(run, gen=lambda u: {"on"} if any(c in filt for c in flow.unconditional_calls(u)) else ())
   before = "on" not in (f.before.get(dirs[0]) or ())
   dm = get_module(ctx, DIR)
   ms = dm.methods("Director")
@@ -725,6 +735,395 @@ def r3_8(ctx):
             "built, before run_program installs director.filter_error: a "
             "disable directive cannot silence them",
             {"logged_by": logged, "director_built_before_filter": before})
+
+
+# -- R3.9: the line key of the disable tests is the line the error is reported at ------------------
+
+def _line_writers(ctx):
+  """Methods of errors.Error that move an existing error (store self._line outside __init__)."""
+  mod = get_module(ctx, ERR)
+  ms = mod.methods("Error")
+  prop = ms.get("line")
+  if prop is None or [src(r.value) for r in _returns(prop) if r.value is not None] != ["self._line"] \
+      or not any(dotted(d) == "property" for d in prop.decorator_list):
+    raise AnalysisError("errors.Error.line is not a property returning self._line")
+  return sorted(name for name, fn in ms.items() if name != "__init__" and any(
+      isinstance(n, ast.Attribute) and dotted(n) == "self._line" and not isinstance(n.ctx, ast.Load)
+      for n in ast.walk(fn)))
+
+
+class _LineKeyFlow(flow.Flow):
+  """May-flow of `<tag>:<local>` facts over one function.
+
+  fresh:N   N may hold a value computed from <err>.line that is still the error's line
+  stale:N   N may hold a value computed from <err>.line before the error was moved
+            (<err>.<writer>(..) or a store to <err>._line executed after the read)
+  unsure:N  as stale, but the mover is only a call that receives <err> as an argument
+  odd:N     N was bound by something other than an assignment statement
+  """
+
+  def __init__(self, fn, err, writers):
+    self._err, self._writers = err, writers
+    self._line_attrs = (f"{err}.line", f"{err}._line")
+    super().__init__(fn, gen=lambda u: (), mode="may")
+
+  def status(self, expr, st):
+    out = set()
+    for n in ast.walk(expr):
+      if isinstance(n, ast.Attribute) and dotted(n) in self._line_attrs:
+        out.add("fresh")
+      elif isinstance(n, ast.Name):
+        out |= {f.split(":", 1)[0] for f in st if f.split(":", 1)[1] == n.id}
+    return out
+
+  def _transfer(self, unit, st):
+    if st is None or isinstance(unit, (ast.FunctionDef, ast.AsyncFunctionDef, ast.ClassDef)):
+      return st
+    nodes = [unit] + list(walk_no_nested(unit))
+    sure = [n for n in nodes if (isinstance(n, ast.Call) and isinstance(n.func, ast.Attribute)
+                                 and dotted(n.func.value) == self._err and n.func.attr in self._writers)
+            or (isinstance(n, ast.Attribute) and not isinstance(n.ctx, ast.Load) and dotted(n) in self._line_attrs)]
+    maybe = [n for n in nodes if isinstance(n, ast.Call) and n not in sure and any(
+        dotted(a) == self._err for a in list(n.args) + [k.value for k in n.keywords])]
+    stored = {n.id for n in nodes if isinstance(n, ast.Name) and not isinstance(n.ctx, ast.Load)}
+    reads = any(isinstance(n, ast.Attribute) and isinstance(n.ctx, ast.Load) and dotted(n) in self._line_attrs
+                for n in nodes)
+    if (sure or maybe) and (stored or reads):
+      raise AnalysisError(f"`{src(unit)[:60]}` moves the error and reads its line / binds a local in one statement")
+    facts = set(st)
+    for tag, movers in (("stale", sure), ("unsure", maybe)):
+      if movers:
+        facts |= {f"{tag}:{f[6:]}" for f in st if f.startswith("fresh:")}
+    if stored:
+      if isinstance(unit, (ast.Assign, ast.AnnAssign, ast.AugAssign)) and unit.value is not None \
+          and not any(isinstance(n, ast.NamedExpr) for n in nodes):
+        status = self.status(unit.value, st)
+        if isinstance(unit, ast.AugAssign):
+          status |= self.status(unit.target, st)
+      else:
+        status = {"odd"}
+      facts = {f for f in facts if f.split(":", 1)[1] not in stored}
+      facts |= {f"{t}:{n}" for t in status for n in stored}
+    return frozenset(facts)
+
+
+@rule("R3.9", "C03", floor=3)
+def r3_9(ctx):
+  """Every disable/ignore membership test in filter_error is keyed by the line the error is reported at.
+
+  filter_error may move the error (implicit `return None`: error.set_line(end)); the line that is looked up
+  in _ignore/_disables must have been read from error.line after the last possible move on every path,
+  otherwise a directive on the *reported* line is not consulted.
+  """
+  mod = get_module(ctx, DIR)
+  fn = mod.func("Director.filter_error")
+  err = _params(fn)[1]
+  if err in _stored(fn):
+    raise AnalysisError("filter_error rebinds its error parameter")
+  writers = _line_writers(ctx)
+  init = mod.func("Director.__init__")
+  tables = {dotted(n.targets[0]) for n in walk_no_nested(init) if isinstance(n, ast.Assign)
+            and src(n.value) in ("_LineSet()", "collections.defaultdict(_LineSet)")}
+  tables.discard(None)
+  if not tables:
+    raise AnalysisError("Director.__init__: no _LineSet tables found")
+  f = _LineKeyFlow(fn, err, writers)
+  tests = []
+  for n in walk_no_nested(fn):
+    if isinstance(n, ast.Compare) and len(n.ops) == 1 and isinstance(n.ops[0], (ast.In, ast.NotIn)):
+      c = n.comparators[0]
+      if dotted(c.value if isinstance(c, ast.Subscript) else c) in tables:
+        tests.append(n)
+  if not tests:
+    raise AnalysisError("filter_error: no membership test on the disable tables found")
+  movers = sorted({src(c) for c in calls_in(fn) if isinstance(c.func, ast.Attribute)
+                   and dotted(c.func.value) == err and c.func.attr in writers})
+  for t in tests:
+    stmt = mod.enclosing_stmt(t)
+    st = f.before.get(stmt)
+    if st is None:
+      continue   # unreachable
+    status = f.status(t.left, st)
+    key, table = src(t.left), src(t.comparators[0])
+    facts = {"key": key, "status": sorted(status), "moves": movers, "line_writers": writers}
+    if "stale" in status:
+      ctx.bad(f"Director.filter_error:key@{table}", DIR, t.lineno,
+              f"`{key}` may hold error.line as read before {movers} moved the error: the test on {table} "
+              "looks up the pre-adjustment line, so a directive on the reported line is not consulted", facts)
+      continue
+    if status & {"unsure", "odd"} or not status:
+      raise AnalysisError(f"filter_error: cannot decide where the key `{key}` of the test on {table} comes "
+                          f"from (status {sorted(status)})")
+    ctx.ok(f"Director.filter_error:key@{table}", DIR, t.lineno, facts)
+
+
+# -- R3.10: tokenizer side - every directive of every comment token reaches the raw comments ---------
+
+def _literals(test, pol, resolve, out):
+  """Atomic facts (text, polarity) that certainly hold when `test` evaluates to `pol`."""
+  while isinstance(test, ast.UnaryOp) and isinstance(test.op, ast.Not):
+    test, pol = test.operand, not pol
+  if isinstance(test, ast.BoolOp):
+    if isinstance(test.op, ast.And) == pol:   # true conjunction / false disjunction: every operand is known
+      for v in test.values:
+        _literals(v, pol, resolve, out)
+    return out
+  if isinstance(test, ast.Compare) and len(test.ops) == 1 and isinstance(test.ops[0], (ast.Eq, ast.NotEq)):
+    a, b = test.left, test.comparators[0]
+    if isinstance(a, ast.Constant):
+      a, b = b, a
+    out.add((f"{resolve(a)} == {resolve(b)}", pol == isinstance(test.ops[0], ast.Eq)))
+    return out
+  out.add((resolve(test), pol))
+  return out
+
+
+def _path_literals(events, resolve):
+  out = set()
+  for ev in events:
+    if ev[0] == "cond":
+      _literals(ev[1], ev[2], resolve, out)
+  return out
+
+
+def _dc_fields(mod, name):
+  return [st.target.id for st in mod.cls(name).body if isinstance(st, ast.AnnAssign) and isinstance(st.target, ast.Name)]
+
+
+def _bind_fields(mod, call, cls):
+  fields = _dc_fields(mod, cls)
+  if any(isinstance(a, ast.Starred) for a in call.args) or len(call.args) > len(fields) \
+      or any(k.arg is None for k in call.keywords):
+    raise AnalysisError(f"cannot bind {src(call)[:60]} to the fields of {cls}")
+  return {**dict(zip(fields, call.args)), **{k.arg: k.value for k in call.keywords}}
+
+
+_STANDALONE_OK = ("not {L}[:{C}].strip()", "not {L}[:{C}].lstrip()", "not {L}[:{C}].rstrip()",
+                  "{L}[:{C}].strip() == ''", "not {L}[:{C}] or {L}[:{C}].isspace()",
+                  "{L}[:{C}].isspace() or not {L}[:{C}]", "{C} == 0 or {L}[:{C}].isspace()",
+                  "not {L}[0:{C}].strip()", "len({L}[:{C}].strip()) == 0")
+_STANDALONE_WRONG = ("True", "False", "{L}[:{C}].strip()", "bool({L}[:{C}].strip())", "{L}[:{C}].strip() != ''",
+                     "{C} == 0", "not {C}", "not {L}[{C}:].strip()", "not {L}.strip()", "{L}[:{C}].isspace()")
+
+
+@rule("R3.10", "C03", floor=9)
+def r3_10(ctx):
+  """Every directive of every comment token reaches raw_structured_comments.
+
+  parser._process_comments must hand every COMMENT token to _process_comment under the token's own line;
+  _process_comment must yield one _StructuredComment per _DIRECTIVE_RE match of the comment text, with
+  open_ended meaning 'nothing but blanks before the comment'.  A match may only be discarded when it is a
+  `type:` comment inside a stand-alone (open-ended) comment: a trailing directive (the one C03 appends to
+  the reported line) and every `pytype:` directive must always come out.
+  """
+  mod = get_module(ctx, PAR)
+  # --- _process_comments: every comment token, keyed by its own line
+  pcs = mod.func("_process_comments")
+  calls = calls_in(pcs, name="_process_comment")
+  loops = [n for n in walk_no_nested(pcs) if isinstance(n, ast.For)]
+  if len(loops) != 1 or len(calls) != 1 or dotted(getattr(loops[0].iter, "func", None)) not in (
+      "tokenize.generate_tokens", "tokenize.tokenize") or not isinstance(loops[0].target, ast.Name):
+    raise AnalysisError("_process_comments: one token loop with one _process_comment call expected")
+  loop, call, tokv = loops[0], calls[0], loops[0].target.id
+  callee = mod.func("_process_comment")
+
+  def tok_resolve(node):
+    """Expression in terms of the token: locals bound once inside the loop are inlined."""
+    if isinstance(node, ast.Name):
+      for n in walk_no_nested(loop):
+        if isinstance(n, ast.Assign) and len(n.targets) == 1:
+          t = n.targets[0]
+          if isinstance(t, ast.Name) and t.id == node.id:
+            return src(n.value)
+          if isinstance(t, ast.Tuple) and any(dotted(e) == node.id for e in t.elts):
+            i = [dotted(e) for e in t.elts].index(node.id)
+            if isinstance(n.value, ast.Tuple) and len(n.value.elts) == len(t.elts):
+              return src(n.value.elts[i])
+            return f"{src(n.value)}[{i}]"
+    return src(node)
+  names = [a.arg for a in callee.args.posonlyargs + callee.args.args]
+  if any(isinstance(a, ast.Starred) for a in call.args) or len(call.args) > len(names):
+    raise AnalysisError("_process_comment call has an unknown argument shape")
+  bound = {**dict(zip(names, call.args)), **{k.arg: k.value for k in call.keywords}}
+  roles = {tok_resolve(v): k for k, v in bound.items()}
+  want = {f"{tokv}.line", f"{tokv}.start[0]", f"{tokv}.start[1]"}
+  class _Inline(ast.NodeTransformer):
+    def visit_Name(self, node):
+      return ast.parse(tok_resolve(node), mode="eval").body
+  g = []
+  for t, p in flow.guards(mod.parent, mod.enclosing_stmt(call)):
+    # a true conjunction / false disjunction is split into its operands
+    g += sorted(_literals(t, p, lambda n: src(_Inline().visit(ast.parse(src(n), mode="eval").body)), set()))
+  is_comment = [x for x in g if x[1] and x[0] in (
+      f"{tokv}.exact_type == tokenize.COMMENT", f"{tokv}.type == tokenize.COMMENT",
+      f"tokenize.COMMENT == {tokv}.exact_type", f"tokenize.COMMENT == {tokv}.type")]
+  extra = [x for x in g if x not in is_comment]
+  if not is_comment and any("COMMENT" in t for t, _ in g):
+    raise AnalysisError(f"_process_comments: comment-token test has an unknown shape: {g}")
+  if extra and not all(flow.names_in(ast.parse(t, mode="eval")) <= {tokv, "tokenize"} | set(bound) | {
+      dotted(v) for v in bound.values()} for t, _ in extra):
+    raise AnalysisError(f"_process_comments: extra guard(s) {extra} around _process_comment are not understood")
+  ctx.check(bool(is_comment) and not extra and set(roles) == want, "_process_comments:every-comment-token", PAR,
+            call.lineno, f"_process_comment({ {k: tok_resolve(v) for k, v in bound.items()} }) runs under {g}: every "
+            "COMMENT token must be processed, with its physical line text, row and column",
+            {"guards": g, "args": {k: tok_resolve(v) for k, v in bound.items()}})
+  if set(roles) != want:
+    return
+  L, ROW, C = roles[f"{tokv}.line"], roles[f"{tokv}.start[0]"], roles[f"{tokv}.start[1]"]
+  # the result is filed under the token's line in the mapping that is returned
+  par = mod.parent[call]
+  sink = key = None
+  if isinstance(par, ast.Call) and isinstance(par.func, ast.Attribute) and par.func.attr == "extend" \
+      and isinstance(par.func.value, ast.Subscript) and par.args == [call]:
+    sink, key = par.func.value.value, par.func.value.slice
+  elif isinstance(par, ast.Call) and dotted(par.func) == "list" and isinstance(mod.parent[par], ast.Assign) \
+      and isinstance(mod.parent[par].targets[0], ast.Subscript):
+    sink, key = mod.parent[par].targets[0].value, mod.parent[par].targets[0].slice
+  elif isinstance(par, ast.AugAssign) and isinstance(par.op, ast.Add) and isinstance(par.target, ast.Subscript):
+    sink, key = par.target.value, par.target.slice
+  if sink is None:
+    raise AnalysisError("_process_comments: what happens to _process_comment's result is not understood")
+  rets = [src(r.value) for r in _returns(pcs) if r.value is not None]
+  ctx.check(tok_resolve(key) == f"{tokv}.start[0]" and rets == [src(sink)] and _single_def(pcs, src(sink)) is not None
+            and src(_single_def(pcs, src(sink))) == "collections.defaultdict(list)",
+            "_process_comments:collects-by-line", PAR, par.lineno,
+            f"directives are filed under {src(sink)}[{tok_resolve(key)}] and {rets} is returned: they must be "
+            f"added to the returned defaultdict(list) under the comment's own line {tokv}.start[0]",
+            {"sink": src(sink), "key": tok_resolve(key), "returns": rets})
+  # --- _process_comment
+  fn = callee
+  floops = [s for s in fn.body if isinstance(s, ast.For)]
+  if len(floops) != 1 or any(isinstance(n, (ast.For, ast.While)) for s in floops[0].body for n in ast.walk(s)):
+    raise AnalysisError("_process_comment: one flat loop over the directive matches expected")
+  mloop = floops[0]
+  pre = fn.body[:fn.body.index(mloop)]
+
+  def resolve(node):
+    if isinstance(node, ast.Name) and node.id not in _params(fn):
+      vals = [n.value for n in pre if isinstance(n, ast.Assign) and any(dotted(t) == node.id for t in n.targets)]
+      if len(vals) == 1:
+        return src(vals[0])
+    return src(node)
+  # (a) the loop visits every match of _DIRECTIVE_RE in the comment text
+  it, part = mloop.iter, None
+  if isinstance(it, ast.Subscript) and isinstance(it.slice, ast.Slice):
+    try:
+      b = [None if x is None else fold(x) for x in (it.slice.lower, it.slice.upper, it.slice.step)]
+    except Unfoldable as e:
+      raise AnalysisError(f"_process_comment: loop over {src(it)} not understood") from e
+    part = None if (b[0] in (None, 0) and b[1] is None and b[2] in (None, 1)) else src(it)
+    it = it.value
+  seq = resolve(it)
+  whole = f"_DIRECTIVE_RE.finditer({L}[{C}:])"
+  if seq not in (whole, f"list({whole})", f"tuple({whole})"):
+    raise AnalysisError(f"_process_comment: the loop iterates {seq}, not the matches of _DIRECTIVE_RE in {L}[{C}:]")
+  if not isinstance(mloop.target, ast.Name) or mloop.orelse:
+    raise AnalysisError("_process_comment: loop target / else clause not understood")
+  mv = mloop.target.id
+  early = []
+  for ev, how in _paths(pre):
+    if how == "fall":
+      continue
+    lits = _path_literals(ev, src)
+    if lits in ({(src(it), False)}, {(f"len({src(it)}) == 0", True)}):
+      continue
+    if how == "return" and lits and all(flow.names_in(ast.parse(t.split(" == ")[0], mode="eval")) <= set(_params(fn))
+                                        | {n for s in pre for n in _stored(s)} for t, _ in lits):
+      early.append(sorted(lits))
+    else:
+      raise AnalysisError(f"_process_comment: exit before the match loop under {sorted(lits)} not understood")
+  ctx.check(part is None and not early, "_process_comment:all-matches", PAR, mloop.lineno,
+            (f"only {part} of the matches are visited; " if part else "") +
+            (f"the comment is dropped as a whole under {early}; " if early else "") +
+            "every directive of the comment must be visited", {"iterates": seq, "part": part, "early_exits": early})
+  # (b) what is yielded
+  ys = [n for n in walk_no_nested(mloop) if isinstance(n, ast.Yield)]
+  if len(ys) != 1 or not (isinstance(ys[0].value, ast.Call) and dotted(ys[0].value.func) == "_StructuredComment"):
+    raise AnalysisError("_process_comment: exactly one `yield _StructuredComment(..)` expected in the loop")
+  fields = _bind_fields(mod, ys[0].value, "_StructuredComment")
+  if set(fields) != {"line", "tool", "data", "open_ended"}:
+    raise AnalysisError(f"_StructuredComment fields {sorted(fields)} not understood")
+  grp = {}   # local -> regex group number
+  for n in walk_no_nested(mloop):
+    if isinstance(n, ast.Assign) and len(n.targets) == 1:
+      t, v = n.targets[0], n.value
+      if isinstance(t, ast.Tuple) and src(v) == f"{mv}.groups()":
+        grp.update({dotted(e): i + 1 for i, e in enumerate(t.elts)})
+      elif isinstance(t, ast.Name) and isinstance(v, ast.Call) and dotted(v.func) == f"{mv}.group" and len(v.args) == 1:
+        grp[t.id] = fold(v.args[0])
+  tool_v, data_v = dotted(fields["tool"]), dotted(fields["data"])
+  if tool_v not in grp or data_v not in grp:
+    raise AnalysisError(f"_process_comment: tool/data fields {src(fields['tool'])}, {src(fields['data'])} are not "
+                        f"bound from {mv}.groups()")
+  got = {"line": src(fields["line"]), "tool": f"group {grp[tool_v]}", "data": f"group {grp[data_v]}",
+         "open_ended": resolve(fields["open_ended"])}
+  ctx.check(got["line"] == ROW and grp[tool_v] == 1 and grp[data_v] == 2, "_process_comment:yield-fields", PAR,
+            ys[0].lineno, f"yields _StructuredComment with {got}; expected line={ROW}, tool=group 1, data=group 2",
+            got)
+  oe = got["open_ended"]
+  ok_forms = [x.format(L=L, C=C) for x in _STANDALONE_OK]
+  bad_forms = [x.format(L=L, C=C) for x in _STANDALONE_WRONG]
+  if oe not in ok_forms + bad_forms:
+    raise AnalysisError(f"_process_comment: open_ended is `{oe}`, an unknown spelling of 'only blanks before the comment'")
+  ctx.check(oe in ok_forms, "_process_comment:open_ended-definition", PAR, ys[0].lineno,
+            f"open_ended is `{oe}`: it must be true exactly when nothing but blanks precedes the comment on "
+            "its line (stand-alone comment)", {"open_ended": oe})
+  # (c) paths through the loop body: yield, abort the file, or discard a nested type comment of a
+  #     stand-alone comment
+  lost, cut, n_paths = [], [], 0
+  for ev, how in _paths(mloop.body):
+    n_paths += 1
+    lits = _path_literals(ev, resolve)
+    if how == "raise":
+      if not {(f"{tool_v} == 'pytype'", True), (f"{data_v} == 'skip-file'", True)} <= lits:
+        raise AnalysisError(f"_process_comment: raise under {sorted(lits)} not understood")
+      continue
+    if how in ("return", "break"):
+      cut.append((how, sorted(lits)))
+    if any(ys[0] in ast.walk(e[1]) for e in ev if e[0] == "stmt"):
+      continue
+    if not {(oe, True), (f"{tool_v} == 'type'", True)} <= lits:
+      lost.append(sorted(lits))
+  ctx.check(not lost, "_process_comment:discards", PAR, mloop.lineno,
+            f"a directive is discarded under {lost[:2]}: only a `type:` comment inside a stand-alone (open-ended) "
+            "comment may be dropped; a trailing directive and every `pytype:` directive must be yielded",
+            {"paths": n_paths, "discarding": lost})
+  ctx.check(not cut, "_process_comment:later-matches", PAR, mloop.lineno,
+            f"the loop is left by {cut[:2]}: the remaining directives of the comment are lost", {"exits": cut})
+  # --- wiring: parse_src -> _SourceTree.structured_comments -> _ParseVisitor(raw_structured_comments)
+  ps = mod.func("parse_src")
+  trees = [c for r in _returns(ps) for c in calls_in(r, name="_SourceTree")]
+  if len(trees) != 1:
+    raise AnalysisError("parse_src: `return _SourceTree(..)` not found")
+  sc = _bind_fields(mod, trees[0], "_SourceTree").get("structured_comments")
+  vst = mod.func("visit_src_tree")
+  pv = calls_in(vst, name="_ParseVisitor")
+  if len(pv) != 1 or len(pv[0].args) != 1:
+    raise AnalysisError("visit_src_tree: `_ParseVisitor(<comments>)` not found")
+  got = (src(sc) if sc is not None else None, src(pv[0].args[0]))
+  ctx.check(got == (f"_process_comments({_params(ps)[0]})", f"{_params(vst)[0]}.structured_comments"),
+            "parse_src:raw-comments-wiring", PAR, ps.lineno,
+            f"_SourceTree.structured_comments={got[0]}, _ParseVisitor({got[1]}): the visitor must receive "
+            "_process_comments of the parsed source", {"structured_comments": got[0], "visitor_arg": got[1]})
+  # vm.run_program: the director reads the text that is compiled (same line numbers)
+  vm = get_module(ctx, VM)
+  run = vm.func("VirtualMachine.run_program")
+  a = [c for c in calls_in(run) if (dotted(c.func) or "").endswith(".parse_src")]
+  b = calls_in(run, name="self.compile_src")
+  if len(a) != 1 or len(b) != 1 or not a[0].args or not b[0].args:
+    raise AnalysisError("run_program: parse_src / compile_src calls not found")
+  sa_, sb = vm.enclosing_stmt(a[0]), vm.enclosing_stmt(b[0])
+  same = dotted(a[0].args[0]) is not None and dotted(a[0].args[0]) == dotted(b[0].args[0])
+  if same and not (sa_ in run.body and sb in run.body):
+    raise AnalysisError("run_program: parse_src / compile_src are not top-level statements")
+  between = []
+  if same:
+    i, j = sorted((run.body.index(sa_), run.body.index(sb)))
+    between = [src(s)[:50] for s in run.body[i:j + 1][1:] if dotted(a[0].args[0]) in _stored(s)]
+  ctx.check(same and not between, "VirtualMachine.run_program:director-reads-compiled-text", VM, a[0].lineno,
+            f"parse_src({src(a[0].args[0])}) vs compile_src({src(b[0].args[0])}), rebinding between them: {between}; "
+            "the directives must be read from the text whose line numbers the bytecode carries",
+            {"parse_src": src(a[0].args[0]), "compile_src": src(b[0].args[0])})
 
 
 def _v(name, rid, file, old, new, expect="fire"):
@@ -827,4 +1226,69 @@ VARIANTS = [
     _v("twin-alternation-reordered", "R3.6", PAR, "(pytype|type)", "(type|pytype)", "silent"),
     _v("twin-optional-prefix", "R3.6", PAR, "(pytype|type)", "((?:py)?type)", "silent"),
     _v("twin-ignore-start-anchor-redundant", "R3.6", PAR, r'r"^ignore(\[.+\])?$"', r'r"ignore(\[.+\])?$"', "silent"),
+    # R3.9: the key of the disable tests is the reported line
+    {"name": "seeded-C03-m1", "rule": "R3.9", "patch": "seeded/C03-m1/patch.diff", "expect": "fire"},
+    _v("second-adjustment-after-key", "R3.9", DIR, "    line = error.line or sys.maxsize\n",
+       "    line = error.line or sys.maxsize\n    if line in self._decorated_functions:\n"
+       "      error.set_line(self._decorated_functions[line])\n"),
+    _vs("stale-through-intermediate-local", "R3.9", "fire",
+        (DIR, "    if (\n        error.name == \"bad-return-type\"", "    raw = error.line\n    if (\n        error.name == \"bad-return-type\""),
+        (DIR, "line = error.line or sys.maxsize", "line = raw or sys.maxsize")),
+    _vs("twin-rename-line-key", "R3.9", "silent",
+        (DIR, "    line = error.line or sys.maxsize", "    key = error.line or sys.maxsize"),
+        (DIR, "        line not in self._ignore", "        key not in self._ignore"),
+        (DIR, "        and line not in self._disables[_ALL_ERRORS]", "        and key not in self._disables[_ALL_ERRORS]"),
+        (DIR, "        and line not in self._disables[error.name]", "        and key not in self._disables[error.name]")),
+    _vs("twin-pre-adjustment-line-cached-for-lookup", "R3.9", "silent",
+        (DIR, "    if (\n        error.name == \"bad-return-type\"", "    orig = error.line\n    if (\n        error.name == \"bad-return-type\""),
+        (DIR, "        and error.line not in self.return_lines", "        and orig not in self.return_lines"),
+        (DIR, "find_outermost(error.line)", "find_outermost(orig)")),
+    _vs("twin-line-key-written-out-in-the-tests", "R3.9", "silent",
+        (DIR, "    line = error.line or sys.maxsize\n", ""),
+        (DIR, "        line not in self._ignore", "        (error.line or sys.maxsize) not in self._ignore"),
+        (DIR, "        and line not in self._disables[_ALL_ERRORS]",
+         "        and (error.line or sys.maxsize) not in self._disables[_ALL_ERRORS]"),
+        (DIR, "        and line not in self._disables[error.name]",
+         "        and (error.line or sys.maxsize) not in self._disables[error.name]")),
+    # R3.10: tokenizer side
+    {"name": "seeded-C03-m2", "rule": "R3.10", "patch": "seeded/C03-m2/patch.diff", "expect": "fire"},
+    _v("only-first-directive-of-a-comment", "R3.10", PAR, "  for m in matches:\n", "  for m in matches[:1]:\n"),
+    _v("nested-type-comment-ends-the-comment", "R3.10", PAR,
+       "      # Discard type comments embedded in larger whole-line comments.\n      continue\n",
+       "      # Discard type comments embedded in larger whole-line comments.\n      return\n"),
+    _v("any-nested-directive-of-stand-alone-comment-dropped", "R3.10", PAR,
+       "if tool == \"type\" and open_ended and is_nested:", "if open_ended and is_nested:"),
+    _v("indented-comments-not-processed", "R3.10", PAR, "if tok == tokenize.COMMENT:",
+       "if tok == tokenize.COMMENT and col == 0:"),
+    _v("directives-filed-under-the-column", "R3.10", PAR, "structured_comments[lineno].extend(",
+       "structured_comments[col].extend("),
+    _v("stand-alone-means-column-zero", "R3.10", PAR, "open_ended = not line[:col].strip()", "open_ended = col == 0"),
+    _v("tool-and-data-swapped", "R3.10", PAR, "yield _StructuredComment(lineno, tool, data, open_ended)",
+       "yield _StructuredComment(lineno, data, tool, open_ended)"),
+    _vs("director-reads-unaugmented-source", "R3.10", "fire",
+        (VM, "    src = preprocess.augment_annotations(src)\n", ""),
+        (VM, "    src_tree = directors.parse_src(src, self.ctx.python_version)\n",
+         "    src_tree = directors.parse_src(src, self.ctx.python_version)\n    src = preprocess.augment_annotations(src)\n")),
+    _v("twin-token-type-tested-directly", "R3.10", PAR, "if tok == tokenize.COMMENT:",
+       "if tokenize.COMMENT == token.type:", "silent"),
+    _v("twin-discard-test-negated", "R3.10", PAR,
+       "    if tool == \"type\" and open_ended and is_nested:\n"
+       "      # Discard type comments embedded in larger whole-line comments.\n      continue\n"
+       "    yield _StructuredComment(lineno, tool, data, open_ended)\n",
+       "    if not (open_ended and is_nested and \"type\" == tool):\n"
+       "      yield _StructuredComment(line=lineno, tool=tool, data=data, open_ended=open_ended)\n", "silent"),
+    _v("starred-call-arguments-not-understood", "R3.10", PAR,
+       "structured_comments[lineno].extend(_process_comment(line, lineno, col))",
+       "structured_comments[token.start[0]] += _process_comment(token.line, *token.start)", "error"),
+    _v("twin-comments-collected-with-iadd-plain", "R3.10", PAR,
+       "structured_comments[lineno].extend(_process_comment(line, lineno, col))",
+       "structured_comments[lineno] += _process_comment(line=line, col=col, lineno=lineno)", "silent"),
+    _vs("twin-rename-open_ended-local", "R3.10", "silent",
+        (PAR, "  open_ended = not line[:col].strip()\n", "  alone = not line[:col].strip()\n"),
+        (PAR, "if tool == \"type\" and open_ended and is_nested:", "if tool == \"type\" and alone and is_nested:"),
+        (PAR, "yield _StructuredComment(lineno, tool, data, open_ended)", "yield _StructuredComment(lineno, tool, data, alone)")),
+    # R3.5 / R3.8: definite deviations are violations, not analysis errors
+    _v("type-comments-never-dispatched", "R3.5", DIR,
+       "          self._process_type(\n              comment.line, comment.data, comment.open_ended, line_range\n          )\n",
+       "          pass\n"),
 ]
